@@ -45,7 +45,11 @@ fn cases(thorough: bool) -> Vec<Case> {
         m
     };
     for &n in sizes {
-        for &(t, e) in &[(0usize, 0usize), (1, 0), (3, 0), (2, 100)] {
+        for &(t, e) in &[(0usize, 0usize), (1, 0), (3, 0), (2, 100), (0, 7777), (1, 7778), (2, 7779)] {
+            // multi-byte payloads only at sizes where characters straddle the buffer boundaries
+            if e >= 7777 && ![513usize, 1025, 2049, 4096].contains(&n) {
+                continue;
+            }
             let data = payload(n, t, e);
             let g = format!("gen {n} {t} {e}");
             for &b in bufs {
@@ -313,7 +317,7 @@ pub fn run(tier: Tier) -> i32 {
         "cases_with_all_cooperative_schedules_explored": unbounded_complete.load(Relaxed),
         "cases_where_unbounded_search_was_capped_and_bound_2_completed_instead": capped.load(Relaxed),
         "executions_discarded_unrepresentable": discarded.load(Relaxed),
-        "explanation": "payload sizes around PIPE_BUF(512)/pipe capacity(1024) x trailing/embedded newlines x pipeline shapes/command substitutions/here-documents x reader buffer sizes; each case under all cooperative schedules (payload <= 1025 bytes), deviation bound 2/3 (<= 4096 bytes) or 1 (10240, 20000, 65537 bytes), plus syscall-tap preemption at deviation bound 1; oracle = byte-exact length+FNV hash at the consumer, exact trailing-newline removal for $( )",
+        "explanation": "payload sizes around PIPE_BUF(512)/pipe capacity(1024) x trailing/embedded newlines (and payloads of 2-/3-/4-byte characters straddling the boundaries) x pipeline shapes/command substitutions/here-documents x reader buffer sizes; each case under all cooperative schedules (payload <= 1025 bytes), deviation bound 2/3 (<= 4096 bytes) or 1 (10240, 20000, 65537 bytes), plus syscall-tap preemption at deviation bound 1; oracle = byte-exact length+FNV hash at the consumer, exact trailing-newline removal for $( )",
     });
     ctx.finish(cov, &["simulator constants PIPE_BUF=512, pipe capacity=1024", "probe built-ins gen/cat/hsink/chk are trusted"])
 }
